@@ -41,6 +41,7 @@ STAGES = {
     "C12": [S("origins", "^TestC12$", quick=30000, thorough=200000, shards=(2, 16)),
             S("fuzz", "^$", tiers=("thorough",), shards=(1, 1), fuzz={"target": "^FuzzC12$", "time": {"quick": "10s", "thorough": "300s"}}, timeout=("10m", "30m"))],
     "C13": [S("responses", "^TestC13$", quick=8000, thorough=200000, shards=(2, 16)),
+            S("silent", "^TestC13Silent$", quick=1500, thorough=100000, shards=(1, 8)),
             S("keys", "^TestC13Keys$")],
     "C14": [S("regress", "^TestC14Regress$|^TestC14LibLib$"),
             S("server-enum", "^TestC14Server$", shards=(4, 16)),
